@@ -1,8 +1,8 @@
-(* C01 — namespace and content operations agree with an abstract tree model.  Statements are printed by Check below and compared with C01.expected.  PARTIAL: the directory layer (lookup / insert / remove / listing on the pointer table refine a search tree over cmp_names, for any tree shape) and the specification's own invariants are theorems; the composition into the full refinement step_refines_spec (abs (step s op) = spec_step (abs s) op, including stream bytes through chains and migrations) is NOT proved — it is checked instance by instance: on every step of every generated history the abstraction of the model state equals the specification tree and the specification's result equals the implementation's. *)
+(* C01 — namespace and content operations agree with an abstract tree model.  Statements are printed by Check below and compared with C01.expected.  PARTIAL: proved are the directory layer (lookup / insert / remove / listing on the pointer table refine a search tree over cmp_names, for any tree shape), the specification's own invariants, and the refinement of the NAMESPACE: under the representation relation TreeRep (table represents abstract tree; stream bytes abstracted by a content relation with a frame hypothesis) every query returns the specification's result and every successful namespace mutation yields a table representing the specification's new tree, with agreeing refusal kinds.  NOT proved: that TreeRep is established by create/open and the content frame for stream bytes through chains and migrations (the composed step_refines_spec over whole histories) — that is checked instance by instance: on every step of every generated history the abstraction of the model state equals the specification tree and the specification's result equals the implementation's. *)
 From Cfb.model Require Import Base Names DirEnt State Alloc Dir Mini Store Handle Open Cfb.
 From Cfb.gen Require Import Consts.
 From Cfb.spec Require Import Tree.
-From Cfb.proofs Require Import NamesProofs DirProofs TreeProofs.
+From Cfb.proofs Require Import NamesProofs DirProofs TreeProofs QueryRefine MutRefine.
 Set Printing Width 110.
 
 (* table lookup with the model's own fuel = search-tree lookup, for ANY tree shape (balance and colour irrelevant) *)
@@ -52,3 +52,45 @@ Theorem C01_spec_refusals_have_no_effect : ltac:(let t := type of spec_refused_n
 Proof. exact spec_refused_no_effect. Qed.
 Check C01_spec_refusals_have_no_effect.
 Print Assumptions C01_spec_refusals_have_no_effect.
+
+(* when the directory table represents the abstract tree t (TreeRep), path lookup on the table = get on t, and the id found represents the node found *)
+Theorem C01_path_lookup_refines_get : ltac:(let t := type of lookup_refines_get in exact t).
+Proof. exact lookup_refines_get. Qed.
+Check C01_path_lookup_refines_get.
+Print Assumptions C01_path_lookup_refines_get.
+
+(* exists / is_stream / is_storage / entry / root_entry / read_storage / read_root / walk / walk_storage: the model's step returns exactly the specification's result (entries up to the root's length field), state unchanged *)
+Theorem C01_queries_refine_spec : ltac:(let t := type of query_step_refines in exact t).
+Proof. exact query_step_refines. Qed.
+Check C01_queries_refine_spec.
+Print Assumptions C01_queries_refine_spec.
+
+(* open_stream succeeds exactly when the specification does, same error kind otherwise; the handle is bound to the id representing that leaf *)
+Theorem C01_open_stream_refines_spec : ltac:(let t := type of open_stream_step_refines in exact t).
+Proof. exact open_stream_step_refines. Qed.
+Check C01_open_stream_refines_spec.
+Print Assumptions C01_open_stream_refines_spec.
+
+(* create_storage, remove_storage, remove_stream, set_storage_clsid, set_state_bits, set_created_time, set_modified_time: whenever the model's step succeeds, the specification succeeds and the new table represents the specification's new tree *)
+Theorem C01_namespace_mutations_refine_spec : ltac:(let t := type of namespace_step_refines in exact t).
+Proof. exact namespace_step_refines. Qed.
+Check C01_namespace_mutations_refine_spec.
+Print Assumptions C01_namespace_mutations_refine_spec.
+
+(* creating a new stream: the new table represents the tree with an empty leaf inserted at the sorted position *)
+Theorem C01_create_stream_refines_spec : ltac:(let t := type of create_stream_step_refines in exact t).
+Proof. exact create_stream_step_refines. Qed.
+Check C01_create_stream_refines_spec.
+Print Assumptions C01_create_stream_refines_spec.
+
+(* when the specification refuses, the model refuses with the same kind and an unchanged state (same for the other seven operations: *_refusal in proofs/MutRefine.v) *)
+Theorem C01_create_storage_refusal_kinds_agree : ltac:(let t := type of create_storage_refusal in exact t).
+Proof. exact create_storage_refusal. Qed.
+Check C01_create_storage_refusal_kinds_agree.
+Print Assumptions C01_create_storage_refusal_kinds_agree.
+
+(* same, for remove_stream *)
+Theorem C01_remove_stream_refusal_kinds_agree : ltac:(let t := type of remove_stream_refusal in exact t).
+Proof. exact remove_stream_refusal. Qed.
+Check C01_remove_stream_refusal_kinds_agree.
+Print Assumptions C01_remove_stream_refusal_kinds_agree.
